@@ -30,6 +30,7 @@ PYVC_MODULES = [
     "contracts.diagonal",
     "contracts.linalg_fermi",
     "contracts.fermi_contract",
+    "contracts.abelian_ops",
 ]
 
 BASE = [A_BUILTINS, A_INT, A_TERM, A_NUMPY, A_BOUNDED, A_USER]
